@@ -298,6 +298,7 @@ type Path struct {
 	Depth  int
 	Funcs  bool
 	RootOp bool
+	Texts  string // step texts as written, one per line (two lines for `..X`)
 }
 
 func mkPath(steps ...Step) Path {
@@ -321,6 +322,15 @@ func mkPath(steps ...Step) Path {
 		p.RootOp = p.RootOp || s.RootOp
 	}
 	p.Ast = "(path " + strings.Join(asts, " ") + ")"
+	var texts []string
+	for _, s := range steps {
+		if s.Kind == "desc" {
+			texts = append(texts, "..", strings.TrimPrefix(s.Text, ".."))
+		} else {
+			texts = append(texts, s.Text)
+		}
+	}
+	p.Texts = strings.Join(texts, "\n")
 	return p
 }
 
